@@ -800,6 +800,8 @@ class StreamThreshold(CountMinSketch):
         res = super().add_alt(hashes, num_els)
         if res >= self.__threshold:
             self.__meets_threshold[key] = res
+        else:  # the estimate can drop below the threshold when a colliding key was removed
+            self.__meets_threshold.pop(key, None)
         return res
 
     def remove(self, key: str, num_els: int = 1) -> int:  # type: ignore
